@@ -78,6 +78,7 @@ class C18(Prop):
         case["rep"] = rng.choice(["encoded_st", "decoded", "encoded_ctor"])
         case["fseed"] = rng.randrange(10 ** 6)
         case["incl"] = rng.random() < 0.5
+        case["dup_labels"] = rng.random() < 0.4     # multi-rank frame concatenated WITHOUT renumbering: row labels repeat across ranks
         return case
 
     def _specs(self, rng, frame, allow_memcpy=True) -> List[Dict[str, Any]]:
@@ -131,7 +132,7 @@ class C18(Prop):
                     p["name"] = p["s_name"]
                     p["cat"] = p["s_cat"]
                 parts.append(p)
-            df = pd.concat(parts, ignore_index=True)
+            df = pd.concat(parts, ignore_index=not case.get("dup_labels", False))
             obs["frame"] = _rows(df, st)
             if not obs["frame"]:
                 return {"skip": True}
@@ -171,7 +172,7 @@ class C18(Prop):
                 if "s_name" in extra.columns:
                     extra.iloc[k, extra.columns.get_loc("s_name")] = nm
             extra["uid"] = extra["uid"] + 50000
-            df2 = pd.concat([df, extra], ignore_index=True)
+            df2 = pd.concat([df, extra], ignore_index=not case.get("dup_labels", False))
             obs["frame2"] = _rows(df2, st2)
             obs["apps2"] = []
             for rec, objs, mode in kept:
